@@ -116,7 +116,21 @@ class C01(Check):
                 if spec.pseudo:     # without a pseudogene a double deletion leaves no read in the locus (C19's subject)
                     yield (spec, build, (("del", None), ("del", None)), 100, 20, 0)
                 yield (spec, build, (("normal", "1.001"),) * 2, 250, 30, 0)
+        yield from self.edge_states()
         yield from self.shipped_states()
+
+    def edge_states(self):
+        """Indels and an MNV on the first / last RefSeq bases (the first mapped genome base on one of the strands),
+        on worlds with the pseudogene upstream of the gene and with alignment indels."""
+        k = 0
+        for spec in (worlds.WorldSpec(("+", "-"), True, False, 0, "edge", "pfirst"), worlds.WorldSpec(("-", "+"), True, True, 2, "edge")):
+            for build in ("hg19", "hg38"):
+                for a in ("19.001", "20.001", "21.001", "22.001", "23.001"):
+                    for other in ("1.001", a, "18.001"):
+                        k += 1
+                        if self.tier == "quick" and k % 3 != self.seed % 3:
+                            continue
+                        yield (spec, build, (("normal", a), ("normal", other)), (100, 150, 50)[k % 3], 20, (0, -1, 1)[k % 3])
 
     def shipped_states(self):
         """Shipped small genes at their real coordinates: every pair of majors (first minor of each)."""
@@ -284,7 +298,12 @@ class C01(Check):
                 v.append((f"e2e/variants/{'+'.join(sorted(kinds))}", f"planted {comps} (rl {rl}, depth {dp}, shift {sh}, {build}): solution {s.get_minor_diplotype()} adds {extra} loses {lost}"))
         if not found:
             v.append(("e2e/planted-majors-not-reported", f"planted {comps} (rl {rl}, depth {dp}, shift {sh}, {build}): reported {[s.get_major_diplotype() for s in sols]}"))
-        if v and only_moved:
+        edge_ins = {m for m in moved_ins if gene.mutations[m][3] >= len(w.seq) - 3 or gene.mutations[m][3] <= 2}
+        if v and only_moved_ins and moved_ins <= edge_ins and len(comps) == 2:
+            # known finding D16: a shifted insertion within three bases of the end of the RefSeq-mapped part,
+            # realigned against aldy's N-padded reference (with the true genome as reference the call is right)
+            v = [("e2e/shifted-insertion-at-refseq-end", "; ".join(m for _, m in v)[:600])]
+        elif v and only_moved:
             # known finding D11: keyed to exactly this situation, see known_findings.json
             v = [("e2e/shifted-repeat-deletion", "; ".join(m for _, m in v)[:600])]
         elif v and only_moved_ins and len(comps) >= 3 and rl >= 250:
